@@ -260,3 +260,822 @@ Proof.
   - apply f1_node_sound. cbn in H. now apply andb_true_iff in H as [H _].
   - apply IH. cbn in H. now apply andb_true_iff in H as [_ H].
 Qed.
+
+(* ---------------------------------------------------------------------------------------------- *)
+(* shape of printed programs                                                                        *)
+
+Lemma print_app a b : print (a ++ b) = print a ++ print b.
+Proof. induction a as [|x a IH]; [reflexivity|]. cbn [app print]. now rewrite IH, app_assoc. Qed.
+Lemma print_group b : print_node (NGroup b) = bg :: print b ++ [eg].
+Proof. reflexivity. Qed.
+Lemma print_def0 g nm b :
+  print_node (NDef g nm O None b) = esc (if g then s_gdef else s_def) :: esc (mname nm) :: bg :: print b ++ [eg].
+Proof. reflexivity. Qed.
+Lemma print_call0 nm : print_node (NCall nm None []) = [esc (mname nm)].
+Proof. reflexivity. Qed.
+Lemma print_cond t th el :
+  print_node (NCond t th el) =
+  print_test t ++ print th ++ match el with Some e => esc s_else :: print e | None => [] end ++ [esc s_fi].
+Proof. destruct el; reflexivity. Qed.
+
+(* pieces of token text that the if-scanner walks over, entering at nesting k and leaving at nesting k' *)
+Definition walks (P : list tok) (k k' : nat) : Prop :=
+  forall tl cur done els, tscan_go (P ++ tl) k cur done els = tscan_go tl k' (rev P ++ cur) done els.
+
+Lemma walks_nil k : walks [] k k. Proof. intros tl cur done els. reflexivity. Qed.
+Lemma walks_app P Q k k' k'' : walks P k k' -> walks Q k' k'' -> walks (P ++ Q) k k''.
+Proof.
+  intros HP HQ tl cur done els. rewrite <- app_assoc, HP, HQ, rev_app_distr, <- app_assoc. reflexivity.
+Qed.
+Lemma walks_tok t k : classify t = KTok 0%Z -> walks [t] k k.
+Proof. intros H tl cur done els. cbn [app tscan_go rev]. now rewrite H. Qed.
+Lemma walks_toks l k : Forall (fun t => classify t = KTok 0%Z) l -> walks l k k.
+Proof.
+  induction 1 as [|t l Ht _ IH]; [apply walks_nil|].
+  change (t :: l) with ([t] ++ l). eapply walks_app; [now apply walks_tok|exact IH].
+Qed.
+Lemma walks_if t k : classify t = KIf 0%Z -> walks [t] k (S k).
+Proof. intros H tl cur done els. cbn [app tscan_go rev]. now rewrite H. Qed.
+Lemma walks_else k : walks [esc s_else] (S k) (S k).
+Proof. intros tl cur done els. reflexivity. Qed.
+Lemma walks_fi k : walks [esc s_fi] (S k) k.
+Proof. intros tl cur done els. reflexivity. Qed.
+
+Lemma classify_letter c : classify (letter c) = KTok 0%Z. Proof. reflexivity. Qed.
+Lemma classify_other c : classify (other c) = KTok 0%Z. Proof. reflexivity. Qed.
+Lemma classify_mname id : classify (esc (mname id)) = KTok 0%Z. Proof. reflexivity. Qed.
+
+Lemma Forall_map_tok {A} (f : A -> tok) (P : tok -> Prop) l : (forall x, P (f x)) -> Forall P (map f l).
+Proof. intros H. induction l; constructor; auto. Qed.
+
+Lemma walks_wprint w k : walks (wprint w) k k.
+Proof.
+  apply walks_toks. unfold wprint. constructor; [reflexivity|]. apply Forall_app. split.
+  - apply Forall_map_tok. intros c. reflexivity.
+  - constructor; [reflexivity|constructor].
+Qed.
+
+Lemma walks_test t k : f1_test t = true -> walks (print_test t) k (S k).
+Proof.
+  intros H. destruct t as [| |a r b| | | | | |]; try discriminate H.
+  - apply walks_if. reflexivity.
+  - apply walks_if. reflexivity.
+  - destruct a as [a|]; [|discriminate H]. destruct b as [b|]; [|discriminate H].
+    cbn [print_test]. change (esc s_ifnum :: ?l) with ([esc s_ifnum] ++ l).
+    eapply walks_app; [apply walks_if; reflexivity|]. apply walks_toks.
+    apply Forall_app. split; [apply Forall_map_tok; intros c; reflexivity|].
+    constructor; [destruct r; reflexivity|].
+    apply Forall_app. split; [apply Forall_map_tok; intros c; reflexivity|].
+    constructor; [reflexivity|constructor].
+Qed.
+
+Lemma walks_print :
+  (forall n, F1n n -> forall k, walks (print_node n) k k) /\ (forall l, F1l l -> forall k, walks (print l) k k).
+Proof.
+  apply F1_mutind.
+  - intros w k. apply walks_wprint.
+  - intros b _ IH k. rewrite print_group. change (bg :: ?l) with ([bg] ++ l).
+    eapply walks_app; [apply walks_tok; reflexivity|]. eapply walks_app; [apply IH|apply walks_tok; reflexivity].
+  - intros g nm b _ IH k. rewrite print_def0.
+    change (?a :: ?b' :: bg :: ?l) with ([a; b'; bg] ++ l).
+    eapply walks_app.
+    + apply walks_toks. constructor; [destruct g; reflexivity|]. constructor; [reflexivity|]. constructor; [reflexivity|constructor].
+    + eapply walks_app; [apply IH|apply walks_tok; reflexivity].
+  - intros nm k. rewrite print_call0. apply walks_tok. reflexivity.
+  - intros t th el Ht _ IHth _ IHel k. rewrite print_cond.
+    eapply walks_app; [now apply walks_test|]. eapply walks_app; [apply IHth|].
+    eapply walks_app; [|apply walks_fi].
+    destruct el as [e|]; [|apply walks_nil].
+    change (esc s_else :: ?l) with ([esc s_else] ++ l). eapply walks_app; [apply walks_else|]. now apply IHel.
+  - intros k. apply walks_nil.
+  - intros n r _ IHn _ IHr k. cbn [print]. eapply walks_app; [apply IHn|apply IHr].
+Qed.
+
+(* brace balance *)
+Lemma depth_after_app a : forall b d,
+  depth_after (a ++ b) d = match depth_after a d with Some d' => depth_after b d' | None => None end.
+Proof.
+  induction a as [|t a IH]; intros b d; [reflexivity|]. cbn [app depth_after].
+  destruct (is_bgroup t); [apply IH|]. destruct (is_egroup t); [destruct d; [reflexivity|apply IH]|apply IH].
+Qed.
+Definition flat (t : tok) : Prop := is_bgroup t = false /\ is_egroup t = false.
+Lemma depth_flat l : Forall flat l -> forall d, depth_after l d = Some d.
+Proof. induction 1 as [|t l [H1 H2] _ IH]; intros d; [reflexivity|]. cbn [depth_after]. rewrite H1, H2. apply IH. Qed.
+Lemma flat_wprint w : Forall flat (wprint w).
+Proof.
+  unfold wprint. constructor; [split; reflexivity|]. apply Forall_app. split.
+  - apply Forall_map_tok. intros c. split; reflexivity.
+  - constructor; [split; reflexivity|constructor].
+Qed.
+Lemma flat_test t : Forall flat (print_test t).
+Proof.
+  destruct t as [| |a r b| | | | | |]; try constructor; try (split; reflexivity); try constructor.
+  destruct a as [a|]; [|constructor]. destruct b as [b|]; [|constructor].
+  cbn [print_test]. constructor; [split; reflexivity|].
+  apply Forall_app. split; [apply Forall_map_tok; intros c; split; reflexivity|].
+  constructor; [destruct r; split; reflexivity|].
+  apply Forall_app. split; [apply Forall_map_tok; intros c; split; reflexivity|].
+  constructor; [split; reflexivity|constructor].
+Qed.
+
+Lemma depth_print :
+  (forall n, F1n n -> forall d, depth_after (print_node n) d = Some d) /\
+  (forall l, F1l l -> forall d, depth_after (print l) d = Some d).
+Proof.
+  apply F1_mutind.
+  - intros w d. apply depth_flat, flat_wprint.
+  - intros b _ IH d. rewrite print_group. cbn [depth_after]. change (is_bgroup bg) with true. cbn iota.
+    rewrite depth_after_app, IH. reflexivity.
+  - intros g nm b _ IH d. rewrite print_def0. cbn [depth_after].
+    replace (is_bgroup (esc (if g then s_gdef else s_def))) with false by (destruct g; reflexivity).
+    replace (is_egroup (esc (if g then s_gdef else s_def))) with false by (destruct g; reflexivity).
+    change (is_bgroup (esc (mname nm))) with false. change (is_egroup (esc (mname nm))) with false.
+    change (is_bgroup bg) with true. cbn iota. rewrite depth_after_app, IH. reflexivity.
+  - intros nm d. reflexivity.
+  - intros t th el Ht _ IHth _ IHel d. rewrite print_cond.
+    rewrite depth_after_app, (depth_flat _ (flat_test t)), depth_after_app, IHth, depth_after_app.
+    destruct el as [e|]; [|reflexivity].
+    cbn [depth_after]. change (is_bgroup (esc s_else)) with false. change (is_egroup (esc s_else)) with false. cbn iota.
+    rewrite (IHel e eq_refl). reflexivity.
+  - intros d. reflexivity.
+  - intros n r _ IHn _ IHr d. cbn [print]. now rewrite depth_after_app, IHn, IHr.
+Qed.
+
+Lemma read_group_print b rest : F1l b -> read_group (print b ++ eg :: rest) O [] = (print b, rest).
+Proof.
+  intros Hb. rewrite (read_group_app (print b) O [] (eg :: rest) O (proj2 depth_print b Hb O)).
+  cbn [read_group]. change (is_bgroup eg) with false. change (is_egroup eg) with true. cbn iota.
+  now rewrite app_nil_r, rev_involutive.
+Qed.
+
+(* substitution does nothing on F1 (no parameters) *)
+Lemma lower_F1 k : forall b, F1l b -> lower k b = b.
+Proof.
+  induction k as [|k IH]; intros b Hb; [reflexivity|]. cbn [lower].
+  induction Hb as [|n r Hn Hr IHr]; [reflexivity|]. cbn [map]. rewrite IHr. f_equal.
+  destruct Hn as [w|b Hb|g nm b Hb|nm|t th el Ht Hth Hel]; try reflexivity.
+  - now rewrite (IH b Hb).
+  - cbn [option_map]. now rewrite (IH b Hb).
+  - rewrite (IH th Hth). destruct el as [e|]; [|reflexivity]. cbn [option_map]. now rewrite (IH e (Hel e eq_refl)).
+Qed.
+Lemma subst_F1 k args : forall b, F1l b -> subst k args b = b.
+Proof.
+  induction k as [|k IH]; intros b Hb; [reflexivity|]. cbn [subst].
+  induction Hb as [|n r Hn Hr IHr]; [reflexivity|]. cbn [flat_map]. rewrite IHr.
+  destruct Hn as [w|b Hb|g nm b Hb|nm|t th el Ht Hth Hel]; try reflexivity.
+  - now rewrite (IH b Hb).
+  - cbn [option_map]. now rewrite (IH b Hb), (lower_F1 50 b Hb).
+  - rewrite (IH th Hth). destruct el as [e|]; [|reflexivity]. cbn [option_map]. now rewrite (IH e (Hel e eq_refl)).
+Qed.
+
+(* ---------------------------------------------------------------------------------------------- *)
+(* decimal digits                                                                                   *)
+
+Definition isdig (c : N) : bool := (48 <=? c) && (c <=? 57).
+Fixpoint val_lsd (l : list N) : Z := match l with [] => 0%Z | c :: r => (Z.of_N c - 48 + 10 * val_lsd r)%Z end.
+
+Lemma digits_value_rev l : digits_value (rev l) = val_lsd l.
+Proof.
+  unfold digits_value. induction l as [|c r IH]; [reflexivity|].
+  cbn [rev val_lsd]. rewrite fold_left_app. cbn [fold_left]. rewrite IH. lia.
+Qed.
+
+Lemma digs_lsd_S f n : digs_lsd (S f) n = (48 + n mod 10) :: (if n <? 10 then [] else digs_lsd f (n / 10)).
+Proof. reflexivity. Qed.
+
+Lemma val_digs f : forall n, n < 2 ^ N.of_nat f -> val_lsd (digs_lsd (S f) n) = Z.of_N n.
+Proof.
+  induction f as [|f IH]; intros n Hn.
+  - cbn in Hn. assert (n = 0) by lia. subst n. reflexivity.
+  - rewrite digs_lsd_S. destruct (N.ltb_spec n 10) as [Hlt|Hge].
+    + cbn [val_lsd]. rewrite (N.mod_small n 10 Hlt). lia.
+    + cbn [val_lsd]. rewrite IH.
+      * pose proof (N.div_mod n 10 ltac:(lia)) as Hdm. lia.
+      * rewrite Nat2N.inj_succ, N.pow_succ_r' in Hn.
+        apply N.div_lt_upper_bound; lia.
+Qed.
+
+Lemma digs_isdig f : forall n, Forall (fun c => isdig c = true) (digs_lsd f n).
+Proof.
+  induction f as [|f IH]; intros n; [constructor|]. rewrite digs_lsd_S. constructor.
+  - assert (H : n mod 10 < 10) by (apply N.mod_lt; discriminate). unfold isdig.
+    generalize dependent (n mod 10). intros m Hm. lia.
+  - destruct (n <? 10); [constructor|apply IH].
+Qed.
+
+Lemma digits_value_digits n : digits_value (digits n) = Z.of_N n.
+Proof.
+  unfold digits. rewrite digits_value_rev. apply val_digs. rewrite N2Nat.id. apply N.size_gt.
+Qed.
+Lemma digits_isdig n : Forall (fun c => isdig c = true) (digits n).
+Proof. unfold digits. apply Forall_rev, digs_isdig. Qed.
+Lemma digits_cons n : exists c cs, digits n = c :: cs.
+Proof.
+  unfold digits. rewrite digs_lsd_S. set (x := 48 + n mod 10). set (l := if n <? 10 then [] else _).
+  cbn [rev]. destruct (rev l) as [|c cs]; cbn; eauto.
+Qed.
+
+(* ---------------------------------------------------------------------------------------------- *)
+(* single steps of the engine                                                                       *)
+
+Notation St i U B := {| input := i; ups := U; bottom := B |}.
+
+Lemma step_plain nx g t r U B : is_elem t = false -> macro_name t = None ->
+  iter_step nx g (St (t :: r) U B) = Ret (SYield t (St r U B)).
+Proof. intros H1 H2. unfold iter_step. cbn [input]. now rewrite H1, H2. Qed.
+Lemma step_elem nx g t r U B : is_elem t = true ->
+  iter_step nx g (St (t :: r) U B) = Ret (SYield t (St r U B)).
+Proof. intros H1. unfold iter_step. cbn [input]. now rewrite H1. Qed.
+(* a control sequence (or brace) whose name has a meaning in the context *)
+Lemma step_macro nx g t nm m r U B : is_elem t = false -> macro_name t = Some nm -> chain_get U B nm = Some m ->
+  iter_step nx g (St (t :: r) U B) = bind (invoke nx g nm m (St r U B)) (fun st3 => Ret (SCont st3)).
+Proof.
+  intros H1 H2 H3. unfold iter_step. cbn [input]. rewrite H1, H2. unfold getitem, lookup, set_input. cbn [ups bottom input].
+  now rewrite H3.
+Qed.
+
+Lemma nx_plain g t r U B : is_elem t = false -> macro_name t = None ->
+  next_exp (S g) (St (t :: r) U B) = Ret (Some t, St r U B).
+Proof. intros H1 H2. cbn [next_exp]. now rewrite step_plain. Qed.
+Lemma nx_elem g t r U B : is_elem t = true -> next_exp (S g) (St (t :: r) U B) = Ret (Some t, St r U B).
+Proof. intros H1. cbn [next_exp]. now rewrite step_elem. Qed.
+Lemma nx_relax g r U B : chain_get U B s_relax = Some (MPrim PRelax) ->
+  next_exp (S (S g)) (St (esc s_relax :: r) U B) = Ret (Some (prim_elem PRelax), St r U B).
+Proof.
+  intros H. cbn [next_exp]. rewrite (step_macro _ _ _ s_relax (MPrim PRelax)); [|reflexivity|reflexivity|exact H].
+  cbn [invoke bind]. unfold push_tok, set_input. cbn [input ups bottom].
+  change (bind (iter_step (next_exp g) g ?s) ?f) with (next_exp (S g) s). now apply nx_elem.
+Qed.
+
+(* what can end a digit run *)
+Definition stopper (u : tok) : Prop :=
+  is_elem u = true \/ (is_elem u = false /\ exists c, text1 u = Some c /\ isdig c = false /\ is_space u = false).
+
+Section Numbers.
+  Context (g0 : nat).
+  Let nx := next_exp (S (S g0)).
+
+  Lemma nx_other c r U B : nx (St (other c :: r) U B) = Ret (Some (other c), St r U B).
+  Proof. apply nx_plain; reflexivity. Qed.
+
+  Lemma read_seq_digits u u' tl U B : nx (St (u :: tl) U B) = Ret (Some u', St tl U B) -> stopper u' ->
+    forall ds acc g, Forall (fun c => isdig c = true) ds -> (length ds < g)%nat ->
+    read_sequence nx g acc (St (map other ds ++ u :: tl) U B) = Ret (rev acc ++ ds, St (u' :: tl) U B).
+  Proof.
+    intros Hu Hs ds. induction ds as [|c ds IH]; intros acc g Hd Hg; (destruct g as [|g]; [cbn in Hg; lia|]).
+    - cbn [map app read_sequence]. rewrite Hu. cbn [bind]. rewrite app_nil_r.
+      destruct Hs as [He|(He & c & Ht & Hc & Hsp)]; rewrite He; [reflexivity|].
+      rewrite Ht. unfold isdig in Hc. rewrite Hc, Hsp. reflexivity.
+    - cbn [map app read_sequence]. rewrite nx_other. cbn [bind].
+      change (is_elem (other c)) with false. change (text1 (other c)) with (Some c). cbn iota.
+      inversion Hd as [|c' ds' Hc Hd']; subst. unfold isdig in Hc. rewrite Hc.
+      rewrite IH; [|exact Hd'|cbn in Hg; lia]. cbn [rev]. now rewrite <- app_assoc.
+  Qed.
+
+  Lemma read_integer_digits n u u' tl U B g :
+    nx (St (u :: tl) U B) = Ret (Some u', St tl U B) -> nx (St (u' :: tl) U B) = Ret (Some u', St tl U B) ->
+    stopper u' -> (length (digits n) < g)%nat ->
+    read_integer nx g (St (map other (digits n) ++ u :: tl) U B) = Ret (Z.of_N n, St (u' :: tl) U B).
+  Proof.
+    intros Hu Hu' Hs Hg. pose proof (digits_value_digits n) as Hv. pose proof (digits_isdig n) as Hd.
+    destruct (digits_cons n) as (c & cs & E). rewrite E in *. clear E.
+    inversion Hd as [|c' ds' Hc Hd']; subst. cbn [length] in Hg. destruct g as [|g]; [lia|].
+    assert (Hc' := Hc). unfold isdig in Hc'.
+    unfold read_integer, ros. cbn [input map app read_optional_spaces]. change (is_space (other c)) with false. cbn iota.
+    unfold set_input. cbn [input ups bottom].
+    cbn [read_signs]. rewrite nx_other. cbn [bind].
+    change (is_elem (other c)) with false. change (text1 (other c)) with (Some c). cbn iota.
+    replace (c =? 43) with false by lia. replace (c =? 45) with false by lia. change (is_space (other c)) with false. cbn iota.
+    unfold push_tok, set_input. cbn [input ups bottom bind].
+    rewrite nx_other. cbn [bind]. change (is_elem (other c)) with false. change (text1 (other c)) with (Some c). cbn iota.
+    rewrite Hc'.
+    rewrite (read_seq_digits u u' tl U B Hu Hs cs [] (S g) Hd' ltac:(lia)). cbn [bind rev app].
+    rewrite Hu'. cbn [bind]. unfold push_tok, set_input. cbn [input ups bottom]. now rewrite Hv.
+  Qed.
+End Numbers.
+
+(* ---------------------------------------------------------------------------------------------- *)
+(* the primitives on printed text                                                                   *)
+
+Definition else_part (el : option (list node)) : list tok :=
+  match el with Some e => esc s_else :: print e | None => [] end.
+Definition else_nodes (el : option (list node)) : list node := match el with Some e => e | None => [] end.
+
+(* processIfContent on  X <then> [\else <else>] \fi tl , X being tokens read over like text (the \relax instance) *)
+Lemma tprocess_cond X th el tl w :
+  Forall (fun t => classify t = KTok 0%Z) X -> F1l th -> (forall e, el = Some e -> F1l e) ->
+  tprocess (WBool w) (X ++ print th ++ else_part el ++ esc s_fi :: tl)
+  = Some ((if w then X ++ print th else print (else_nodes el)) ++ tl).
+Proof.
+  intros HX Hth Hel. unfold tprocess, tscan.
+  assert (Hw : walks (X ++ print th) O O) by (eapply walks_app; [now apply walks_toks|now apply (proj2 walks_print)]).
+  rewrite app_assoc, Hw, app_nil_r.
+  destruct el as [e|]; cbn [else_part else_nodes app].
+  - change (esc s_else :: print e ++ esc s_fi :: tl) with ([esc s_else] ++ print e ++ esc s_fi :: tl).
+    cbn [app tscan_go]. change (classify (esc s_else)) with KElse. cbn iota. cbn [length].
+    rewrite (proj2 walks_print e (Hel e eq_refl) O), app_nil_r. cbn [tscan_go].
+    change (classify (esc s_fi)) with KFi. cbn iota.
+    unfold tselect. cbn [telse tcases trest rev app]. rewrite !rev_involutive.
+    destruct w; reflexivity.
+  - cbn [tscan_go]. change (classify (esc s_fi)) with KFi. cbn iota.
+    unfold tselect. cbn [telse tcases trest rev app length]. rewrite !rev_involutive.
+    destruct w; reflexivity.
+Qed.
+
+Lemma if_invoke_cond X th el tl w U B :
+  Forall (fun t => classify t = KTok 0%Z) X -> F1l th -> (forall e, el = Some e -> F1l e) ->
+  if_invoke w (St (X ++ print th ++ else_part el ++ esc s_fi :: tl) U B)
+  = Ret (St ((if w then X ++ print th else print (else_nodes el)) ++ tl) U B).
+Proof. intros HX Hth Hel. unfold if_invoke. cbn [input]. now rewrite tprocess_cond. Qed.
+
+Lemma stopper_rel r : stopper (rel_tok r).
+Proof. right. split; [reflexivity|]. destruct r; cbn; eauto. Qed.
+
+(* \ifnum a rel b \relax ...: both numbers are read, the \relax is executed by the look-ahead and its instance stays *)
+Lemma invoke_ifnum g0 g a r b tl U B :
+  (0 <= a)%Z -> (0 <= b)%Z -> chain_get U B s_relax = Some (MPrim PRelax) ->
+  (length (digits (Z.to_N a)) < g)%nat -> (length (digits (Z.to_N b)) < g)%nat ->
+  invoke (next_exp (S (S g0))) g s_ifnum (MPrim PIfnum)
+    (St (map other (digits (Z.to_N a)) ++ rel_tok r :: map other (digits (Z.to_N b)) ++ esc s_relax :: tl) U B)
+  = if_invoke (relz r a b) (St (prim_elem PRelax :: tl) U B).
+Proof.
+  intros Ha Hb Hrelax Hga Hgb. cbn [invoke].
+  destruct (digits_cons (Z.to_N a)) as (ca & csa & Ea).
+  assert (Hros : ros (St (map other (digits (Z.to_N a)) ++ rel_tok r :: map other (digits (Z.to_N b)) ++ esc s_relax :: tl) U B)
+                 = St (map other (digits (Z.to_N a)) ++ rel_tok r :: map other (digits (Z.to_N b)) ++ esc s_relax :: tl) U B).
+  { rewrite Ea. reflexivity. }
+  rewrite Hros.
+  rewrite (read_integer_digits g0 (Z.to_N a) (rel_tok r) (rel_tok r)); [| | |apply stopper_rel|exact Hga].
+  2, 3: destruct r; apply nx_plain; reflexivity.
+  cbn [bind]. replace (ros (St (rel_tok r :: map other (digits (Z.to_N b)) ++ esc s_relax :: tl) U B))
+    with (St (rel_tok r :: map other (digits (Z.to_N b)) ++ esc s_relax :: tl) U B) by (destruct r; reflexivity).
+  cbn [input]. replace (is_elem (rel_tok r)) with false by (destruct r; reflexivity).
+  unfold set_input. cbn [input ups bottom].
+  rewrite (read_integer_digits g0 (Z.to_N b) (esc s_relax) (prim_elem PRelax)); [| | |left; reflexivity|exact Hgb].
+  2: now apply nx_relax.
+  2: apply nx_elem; reflexivity.
+  cbn [bind]. rewrite !Z2N.id by assumption.
+  destruct r; cbn [rel_tok ttext other seqb N.eqb Pos.eqb andb relz]; try reflexivity.
+  now rewrite Z.gtb_ltb.
+Qed.
+
+(* \def\zq..{body} / \gdef\zq..{body} *)
+Lemma def_invoke_print gl nm b tl U B : F1l b ->
+  def_invoke gl (St (esc (mname nm) :: bg :: print b ++ eg :: tl) U B)
+  = Ret (push_tok (prim_elem (PDef gl))
+           ((if gl then add_global else add_local) (mname nm) (MDef [] (print b)) (St tl U B))).
+Proof.
+  intros Hb. unfold def_invoke, ros. cbn [input read_optional_spaces].
+  change (is_space (esc (mname nm))) with false. cbn iota. unfold set_input. cbn [input ups bottom read_optional_spaces].
+  change (is_space bg) with false. cbn iota. cbn [read_args]. change (is_bgroup bg) with true. cbn iota. cbn [rev input read_optional_spaces].
+  change (is_space bg) with false. cbn iota. cbn [input ups bottom].
+  unfold read_token. change (is_bgroup bg) with true. cbn iota.
+  rewrite (read_group_print b tl Hb). cbn [has_nested]. reflexivity.
+Qed.
+
+(* ---------------------------------------------------------------------------------------------- *)
+(* the invariant: frames of the reference evaluator <-> frames of the engine's context              *)
+
+Lemma alookup_aremove_neq {A} id nm (f : list (Z * A)) : id <> nm -> alookup id (aremove nm f) = alookup id f.
+Proof.
+  intros Hn. induction f as [|[k v] f IH]; [reflexivity|]. cbn [aremove alookup].
+  destruct (Z.eqb_spec nm k) as [->|Hk].
+  - rewrite IH. destruct (Z.eqb_spec id k); [contradiction|reflexivity].
+  - cbn [alookup]. now rewrite IH.
+Qed.
+Lemma alookup_aremove_eq {A} nm (f : list (Z * A)) : alookup nm (aremove nm f) = None.
+Proof.
+  induction f as [|[k v] f IH]; [reflexivity|]. cbn [aremove].
+  destruct (Z.eqb_spec nm k) as [->|Hk]; [exact IH|]. cbn [alookup].
+  destruct (Z.eqb_spec nm k); [contradiction|exact IH].
+Qed.
+Lemma alookup_aset {A} id nm (m : A) f : alookup id (aset nm m f) = if (id =? nm)%Z then Some m else alookup id f.
+Proof.
+  unfold aset. cbn [alookup]. destruct (Z.eqb_spec id nm) as [->|Hn]; [reflexivity|]. now apply alookup_aremove_neq.
+Qed.
+Lemma alookup_aremove_some {A} id nm (f : list (Z * A)) m : alookup id (aremove nm f) = Some m -> alookup id f = Some m.
+Proof.
+  destruct (Z.eq_dec id nm) as [->|Hn]; [now rewrite alookup_aremove_eq|]. now rewrite alookup_aremove_neq.
+Qed.
+
+Definition frel (isb : bool) (mf : MacroLang.frame) (ef : Engine.frame) : Prop :=
+  (forall id, findm (mname id) ef = option_map mean_of (alookup id mf)) /\
+  (forall k, (forall id, k <> mname id) -> findm k ef = if isb then findm k base_frame else None).
+
+Definition good (m : MacroLang.meaning) : Prop := m_n m = O /\ m_default m = None /\ F1l (m_body m).
+Definition menv_ok (fs : list MacroLang.frame) : Prop :=
+  forall f id m, In f fs -> alookup id f = Some m -> good m.
+
+Definition Rf (fs : list MacroLang.frame) (U : list Engine.frame) (B : Engine.frame) : Prop :=
+  exists mfs mg, fs = mfs ++ [mg] /\ Forall2 (frel false) mfs U /\ frel true mg B /\ menv_ok fs.
+
+Lemma frel_nil : frel false [] [].
+Proof. split; intros; reflexivity. Qed.
+
+Lemma frel_init : frel true [] base_frame.
+Proof. split; [intros id; reflexivity|intros k _; reflexivity]. Qed.
+
+Lemma frel_set isb mf ef nm m :
+  frel isb mf ef -> frel isb (aset nm m mf) ((mname nm, mean_of m) :: ef).
+Proof.
+  intros [H1 H2]. split.
+  - intros id. cbn [findm]. rewrite seqb_mname, alookup_aset. destruct (id =? nm)%Z; [reflexivity|apply H1].
+  - intros k Hk. cbn [findm]. rewrite (seqb_neq k (mname nm) (Hk nm)). now apply H2.
+Qed.
+
+Lemma frel_remove mf ef nm : alookup nm mf = None -> frel false mf ef -> frel false (aremove nm mf) ef.
+Proof.
+  intros Hn [H1 H2]. split; [|exact H2]. intros id. rewrite H1.
+  destruct (Z.eq_dec id nm) as [->|Hd]; [now rewrite Hn, alookup_aremove_eq|now rewrite alookup_aremove_neq].
+Qed.
+
+Lemma Rf_lookup fs U B id : Rf fs U B -> chain_get U B (mname id) = option_map mean_of (lookup_frames id fs).
+Proof.
+  intros (mfs & mg & -> & HF & HB & _). induction HF as [|mf ef mfs U [H1 _] _ IH].
+  - cbn [app lookup_frames chain_get]. rewrite (proj1 HB). destruct (alookup id mg); reflexivity.
+  - cbn [app lookup_frames chain_get]. rewrite H1. destruct (alookup id mf); [reflexivity|exact IH].
+Qed.
+
+Lemma Rf_prim fs U B k : Rf fs U B -> (forall id, k <> mname id) -> chain_get U B k = findm k base_frame.
+Proof.
+  intros (mfs & mg & -> & HF & HB & _) Hk. induction HF as [|mf ef mfs U [_ H2] _ IH].
+  - cbn [chain_get]. now apply (proj2 HB).
+  - cbn [chain_get]. now rewrite (H2 k Hk).
+Qed.
+
+Ltac not_mname := let id := fresh in let H := fresh in intros id H; unfold mname in H; discriminate H.
+
+Lemma Rf_push fs U B : Rf fs U B -> Rf ([] :: fs) ([] :: U) B.
+Proof.
+  intros (mfs & mg & -> & HF & HB & Hok). exists ([] :: mfs), mg. split; [reflexivity|]. split; [constructor; [apply frel_nil|exact HF]|].
+  split; [exact HB|]. intros f id m [<-|Hin] Hl; [discriminate|]. now apply (Hok f id m).
+Qed.
+
+Lemma Rf_pop fs u U B : Rf fs (u :: U) B -> Rf (tl fs) U B.
+Proof.
+  intros (mfs & mg & -> & HF & HB & Hok). inversion HF as [|mf ef mfs' U' _ HF' E1 E2]; subst.
+  exists mfs', mg. cbn [app tl]. split; [reflexivity|]. split; [exact HF'|]. split; [exact HB|].
+  intros f id m Hin Hl. apply (Hok f id m); [now right|exact Hl].
+Qed.
+
+Lemma good_new b : F1l b -> good {| m_n := O; m_default := None; m_body := b |}.
+Proof. intros H. repeat split. exact H. Qed.
+
+Lemma mean_of_good m : good m -> mean_of m = MDef [] (print (m_body m)).
+Proof. intros (H & _ & _). unfold mean_of. now rewrite H. Qed.
+
+Lemma Rf_def_local fs U B nm b : F1l b -> Rf fs U B ->
+  let m := {| m_n := O; m_default := None; m_body := b |} in
+  let st := add_local (mname nm) (MDef [] (print b)) (St [] U B) in
+  Rf (def_local nm m fs) (ups st) (bottom st).
+Proof.
+  intros Hb (mfs & mg & -> & HF & HB & Hok) m st.
+  assert (Hm : mean_of m = MDef [] (print b)) by reflexivity.
+  assert (Hok' : forall f0 r0, mfs ++ [mg] = f0 :: r0 -> menv_ok (aset nm m f0 :: r0)).
+  { intros f0 r0 E f id m' [<-|Hin] Hl.
+    - rewrite alookup_aset in Hl. destruct (id =? nm)%Z.
+      + injection Hl as <-. now apply good_new.
+      + apply (Hok f0 id m'); [rewrite E; now left|exact Hl].
+    - apply (Hok f id m'); [rewrite E; now right|exact Hl]. }
+  inversion HF as [|mf ef mfs' U' Hfe HF' E1 E2]; subst.
+  - cbn [app def_local]. subst st. unfold add_local. cbn [ups]. unfold add_global, set_bottom. cbn [ups bottom].
+    exists [], (aset nm m mg). split; [reflexivity|]. split; [constructor|]. split.
+    + rewrite <- Hm. now apply frel_set.
+    + now apply (Hok' mg []).
+  - cbn [app def_local]. subst st. unfold add_local. cbn [ups]. unfold set_ups. cbn [ups bottom].
+    exists (aset nm m mf :: mfs'), mg. split; [reflexivity|]. split.
+    + constructor; [|exact HF']. rewrite <- Hm. now apply frel_set.
+    + split; [exact HB|]. now apply (Hok' mf (mfs' ++ [mg])).
+Qed.
+
+Lemma def_global_app nm m mfs mg : def_global nm m (mfs ++ [mg]) = map (aremove nm) mfs ++ [aset nm m mg].
+Proof.
+  induction mfs as [|f mfs IH]; [reflexivity|]. cbn [app map]. rewrite <- IH.
+  destruct mfs; reflexivity.
+Qed.
+
+Lemma Rf_def_global fs U B nm b : F1l b -> unshadowed nm fs = true -> Rf fs U B ->
+  let m := {| m_n := O; m_default := None; m_body := b |} in
+  Rf (def_global nm m fs) U ((mname nm, MDef [] (print b)) :: B).
+Proof.
+  intros Hb Hun (mfs & mg & -> & HF & HB & Hok) m.
+  assert (Hm : mean_of m = MDef [] (print b)) by reflexivity.
+  unfold unshadowed in Hun. rewrite removelast_last in Hun. rewrite forallb_forall in Hun.
+  rewrite def_global_app. exists (map (aremove nm) mfs), (aset nm m mg). split; [reflexivity|]. split; [|split].
+  - clear Hok HB. induction HF as [|mf ef mfs U Hfe _ IH]; [constructor|]. cbn [map]. constructor.
+    + apply frel_remove; [|exact Hfe]. specialize (Hun mf (or_introl eq_refl)). now destruct (alookup nm mf).
+    + apply IH. intros x Hx. apply Hun. now right.
+  - rewrite <- Hm. now apply frel_set.
+  - intros f id m' Hin Hl. apply in_app_or in Hin as [Hin|[<-|[]]].
+    + apply in_map_iff in Hin as (f0 & <- & Hin0). apply alookup_aremove_some in Hl.
+      apply (Hok f0 id m'); [apply in_or_app; now left|exact Hl].
+    + rewrite alookup_aset in Hl. destruct (id =? nm)%Z.
+      * injection Hl as <-. now apply good_new.
+      * apply (Hok mg id m'); [apply in_or_app; right; now left|exact Hl].
+Qed.
+
+Lemma Rf_good fs U B id m : Rf fs U B -> lookup_frames id fs = Some m -> good m.
+Proof.
+  intros (mfs & mg & E & _ & _ & Hok) Hl. clear E. induction fs as [|f fs IH]; [discriminate|].
+  cbn [lookup_frames] in Hl. destruct (alookup id f) as [m'|] eqn:Ea.
+  - injection Hl as <-. apply (Hok f id m'); [now left|exact Ea].
+  - apply IH; [|exact Hl]. intros f0 id0 m0 Hin. apply Hok. now right.
+Qed.
+
+(* ---------------------------------------------------------------------------------------------- *)
+(* unfolding equations of the reference evaluator and of the side condition                         *)
+
+Lemma eval_nil f e out : eval (S f) e out [] = Ok e out. Proof. reflexivity. Qed.
+Lemma eval_budget f e out n rest r : eval (S f) e out (n :: rest) = r -> (forall e' o', r <> Ok e' o') \/ exists budget, steps e = S budget.
+Proof. intros <-. cbn [eval]. destruct (steps e); [left; intros; discriminate|right; eauto]. Qed.
+
+Section Unfold.
+  Context (f : nat) (e : env) (out : list Z) (rest : list node) (budget : nat) (Hs : steps e = S budget).
+  Let e1 := tick e budget.
+
+  Lemma eval_word w : eval (S f) e out (NWord w :: rest) = eval f e1 (w :: out) rest.
+  Proof. cbn [eval]. now rewrite Hs. Qed.
+  Lemma eval_group b : eval (S f) e out (NGroup b :: rest) =
+    match eval f (with_frames e1 ([] :: frames e1)) out b with
+    | Ok e' out' => eval f (with_frames e' (tl (frames e'))) out' rest
+    | other => other
+    end.
+  Proof. cbn [eval]. now rewrite Hs. Qed.
+  Lemma eval_def g nm np d b : eval (S f) e out (NDef g nm np d b :: rest) =
+    eval f (with_frames e1 ((if g then def_global else def_local) nm {| m_n := np; m_default := d; m_body := b |} (frames e1))) out rest.
+  Proof. cbn [eval]. now rewrite Hs. Qed.
+  Lemma eval_call0 nm : eval (S f) e out (NCall nm None [] :: rest) =
+    match lookup_frames nm (frames e1) with
+    | None => Stuck 1
+    | Some m =>
+        if Nat.eqb O (m_n m) then
+          let args := match m_default m with Some d => [d] | None => [] end in
+          let body := subst 50 args (m_body m) in
+          if Nat.ltb 4000 (length body) then MacroLang.OutOfFuel else
+          match eval f e1 out body with Ok e' out' => eval f e' out' rest | other => other end
+        else Stuck 2
+    end.
+  Proof. cbn [eval]. rewrite Hs. reflexivity. Qed.
+  Lemma eval_cond t th el : eval (S f) e out (NCond t th el :: rest) =
+    match eval f e1 out (if eval_test e1 t then th else match el with Some x => x | None => [] end) with
+    | Ok e' out' => eval f e' out' rest
+    | other => other
+    end.
+  Proof. cbn [eval]. now rewrite Hs. Qed.
+
+  Lemma gsafe_word w : gsafe (S f) e out (NWord w :: rest) = gsafe f e1 (w :: out) rest.
+  Proof. cbn [gsafe]. now rewrite Hs. Qed.
+  Lemma gsafe_group b : gsafe (S f) e out (NGroup b :: rest) =
+    gsafe f (with_frames e1 ([] :: frames e1)) out b &&
+    match eval f (with_frames e1 ([] :: frames e1)) out b with
+    | Ok e' out' => gsafe f (with_frames e' (tl (frames e'))) out' rest
+    | _ => true
+    end.
+  Proof. cbn [gsafe]. now rewrite Hs. Qed.
+  Lemma gsafe_def g nm np d b : gsafe (S f) e out (NDef g nm np d b :: rest) =
+    (if g then unshadowed nm (frames e1) else true) &&
+    gsafe f (with_frames e1 ((if g then def_global else def_local) nm {| m_n := np; m_default := d; m_body := b |} (frames e1))) out rest.
+  Proof. cbn [gsafe]. now rewrite Hs. Qed.
+  Lemma gsafe_call0 nm : gsafe (S f) e out (NCall nm None [] :: rest) =
+    match lookup_frames nm (frames e1) with
+    | None => true
+    | Some m =>
+        let args := match m_default m with Some d => [d] | None => [] end in
+        let body := subst 50 args (m_body m) in
+        gsafe f e1 out body && match eval f e1 out body with Ok e' out' => gsafe f e' out' rest | _ => true end
+    end.
+  Proof. cbn [gsafe]. rewrite Hs. reflexivity. Qed.
+  Lemma gsafe_cond t th el : gsafe (S f) e out (NCond t th el :: rest) =
+    let b := if eval_test e1 t then th else match el with Some x => x | None => [] end in
+    gsafe f e1 out b && match eval f e1 out b with Ok e' out' => gsafe f e' out' rest | _ => true end.
+  Proof. cbn [gsafe]. now rewrite Hs. Qed.
+  Lemma eval_call0_good nm m : lookup_frames nm (frames e1) = Some m -> m_n m = O -> m_default m = None ->
+    eval (S f) e out (NCall nm None [] :: rest) =
+    if Nat.ltb 4000 (length (subst 50 [] (m_body m))) then MacroLang.OutOfFuel else
+    match eval f e1 out (subst 50 [] (m_body m)) with Ok e' out' => eval f e' out' rest | other => other end.
+  Proof. intros Hl Hn Hd. rewrite eval_call0, Hl, Hn, Hd. reflexivity. Qed.
+  Lemma gsafe_call0_good nm m : lookup_frames nm (frames e1) = Some m -> m_default m = None ->
+    gsafe (S f) e out (NCall nm None [] :: rest) =
+    gsafe f e1 out (subst 50 [] (m_body m)) &&
+    match eval f e1 out (subst 50 [] (m_body m)) with Ok e' out' => gsafe f e' out' rest | _ => true end.
+  Proof. intros Hl Hd. rewrite gsafe_call0, Hl, Hd. reflexivity. Qed.
+End Unfold.
+
+(* ---------------------------------------------------------------------------------------------- *)
+(* executions of the engine on printed pieces                                                       *)
+
+Definition plain (t : tok) : Prop := is_elem t = false /\ macro_name t = None.
+
+Lemma exec_plain l : forall r U B, Forall plain l -> exec (St (l ++ r) U B) l (St r U B).
+Proof.
+  induction l as [|t l IH]; intros r U B H; [apply ex_refl|]. inversion H as [|t' l' [H1 H2] Hl]; subst.
+  cbn [app]. eapply (ex_yield O); [now apply step_plain|now apply IH].
+Qed.
+Lemma plain_wprint w : Forall plain (wprint w).
+Proof.
+  unfold wprint. constructor; [split; reflexivity|]. apply Forall_app. split.
+  - apply Forall_map_tok. intros c. split; reflexivity.
+  - constructor; [split; reflexivity|constructor].
+Qed.
+Lemma text_of_plain l : Forall plain l -> text_of l = l.
+Proof. induction 1 as [|t l [H _] _ IH]; [reflexivity|]. unfold text_of in *. cbn [filter]. rewrite H. cbn. now rewrite IH. Qed.
+Lemma text_of_app a b : text_of (a ++ b) = text_of a ++ text_of b.
+Proof. apply filter_app. Qed.
+Lemma words_text_snoc w out : words_text (rev (w :: out)) = words_text (rev out) ++ wprint w.
+Proof. unfold words_text. cbn [rev]. rewrite flat_map_app. cbn [flat_map]. now rewrite app_nil_r. Qed.
+
+Lemma prim_lookup fs U B k p : Rf fs U B -> (forall id, k <> mname id) -> findm k base_frame = Some (MPrim p) ->
+  chain_get U B k = Some (MPrim p).
+Proof. intros HR Hk Hf. now rewrite (Rf_prim fs U B k HR Hk). Qed.
+
+Lemma exec_bgroup fs U B r : Rf fs U B -> exec (St (bg :: r) U B) [prim_elem PBgroup] (St r ([] :: U) B).
+Proof.
+  intros HR. eapply (ex_cont O).
+  - rewrite (step_macro _ _ bg s_bgroup (MPrim PBgroup)); [reflexivity|reflexivity|reflexivity|].
+    apply (prim_lookup fs); [exact HR|not_mname|reflexivity].
+  - eapply (ex_yield O); [apply step_elem; reflexivity|apply ex_refl].
+Qed.
+Lemma exec_egroup fs u U B r : Rf fs (u :: U) B -> exec (St (eg :: r) (u :: U) B) [prim_elem PEgroup] (St r U B).
+Proof.
+  intros HR. eapply (ex_cont O).
+  - rewrite (step_macro _ _ eg s_egroup (MPrim PEgroup)); [reflexivity|reflexivity|reflexivity|].
+    apply (prim_lookup fs); [exact HR|not_mname|reflexivity].
+  - eapply (ex_yield O); [apply step_elem; reflexivity|apply ex_refl].
+Qed.
+Lemma exec_def fs U B (gl : bool) nm b r : Rf fs U B -> F1l b ->
+  let st := (if gl then add_global else add_local) (mname nm) (MDef [] (print b)) (St r U B) in
+  exec (St (esc (if gl then s_gdef else s_def) :: esc (mname nm) :: bg :: print b ++ eg :: r) U B) [prim_elem (PDef gl)] st.
+Proof.
+  intros HR Hb st. eapply (ex_cont O).
+  - rewrite (step_macro _ _ _ (if gl then s_gdef else s_def) (MPrim (PDef gl))).
+    + cbn [invoke]. rewrite (def_invoke_print gl nm b r U B Hb). reflexivity.
+    + destruct gl; reflexivity.
+    + destruct gl; reflexivity.
+    + apply (prim_lookup fs); [exact HR|destruct gl; not_mname|destruct gl; reflexivity].
+  - fold st. destruct st as [i U' B'] eqn:E.
+    assert (Hi : i = r) by (subst st; destruct gl; unfold add_global, add_local, set_bottom, set_ups in E; cbn in E; [|destruct U]; inversion E; reflexivity).
+    subst i. unfold push_tok, set_input. cbn [input ups bottom].
+    eapply (ex_yield O); [apply step_elem; destruct gl; reflexivity|apply ex_refl].
+Qed.
+Lemma exec_call U B nm body r : chain_get U B (mname nm) = Some (MDef [] body) ->
+  exec (St (esc (mname nm) :: r) U B) [] (St (body ++ r) U B).
+Proof.
+  intros H. eapply (ex_cont O); [|apply ex_refl].
+  rewrite (step_macro _ _ _ (mname nm) (MDef [] body)); [reflexivity|reflexivity|reflexivity|exact H].
+Qed.
+
+Lemma exec_cond fs U B t th el r : Rf fs U B -> f1_test t = true -> F1l th -> (forall e, el = Some e -> F1l e) ->
+  forall e0, frames e0 = fs ->
+  exists X, Forall (fun x => is_elem x = true) X /\
+  exec (St (print_test t ++ print th ++ else_part el ++ esc s_fi :: r) U B) []
+       (St ((if eval_test e0 t then X ++ print th else print (else_nodes el)) ++ r) U B).
+Proof.
+  intros HR Ht Hth Hel e0 He0. destruct t as [| |a rl b| | | | | |]; try discriminate Ht.
+  - exists []. split; [constructor|]. eapply (ex_cont O); [|apply ex_refl].
+    cbn [print_test app]. rewrite (step_macro _ _ _ s_iftrue (MPrim PIftrue)); [|reflexivity|reflexivity|].
+    + cbn [invoke]. pose proof (if_invoke_cond [] th el r true U B (Forall_nil _) Hth Hel) as Hi. cbn [app] in Hi. rewrite Hi. reflexivity.
+    + apply (prim_lookup fs); [exact HR|not_mname|reflexivity].
+  - exists []. split; [constructor|]. eapply (ex_cont O); [|apply ex_refl].
+    cbn [print_test app]. rewrite (step_macro _ _ _ s_iffalse (MPrim PIffalse)); [|reflexivity|reflexivity|].
+    + cbn [invoke]. pose proof (if_invoke_cond [] th el r false U B (Forall_nil _) Hth Hel) as Hi. cbn [app] in Hi. rewrite Hi. reflexivity.
+    + apply (prim_lookup fs); [exact HR|not_mname|reflexivity].
+  - destruct a as [a|]; [|discriminate Ht]. destruct b as [b|]; [|discriminate Ht].
+    cbn [f1_test] in Ht. apply andb_true_iff in Ht as [Ha Hb]. apply Z.leb_le in Ha, Hb.
+    exists [prim_elem PRelax]. split; [constructor; [reflexivity|constructor]|].
+    set (la := length (digits (Z.to_N a))). set (lb := length (digits (Z.to_N b))).
+    eapply (ex_cont (S (S (la + lb)))); [|apply ex_refl].
+    cbn [print_test]. cbn [app]. rewrite <- app_assoc. cbn [app]. rewrite <- app_assoc. cbn [app].
+    rewrite (step_macro _ _ _ s_ifnum (MPrim PIfnum)); [|reflexivity|reflexivity|].
+    + rewrite (invoke_ifnum (la + lb) (S (S (la + lb))) a rl b); [|exact Ha|exact Hb| |subst la lb; lia|subst la lb; lia].
+      * change (prim_elem PRelax :: print th ++ else_part el ++ esc s_fi :: r)
+          with ([prim_elem PRelax] ++ print th ++ else_part el ++ esc s_fi :: r).
+        rewrite (if_invoke_cond [prim_elem PRelax] th el r (relz rl a b) U B); [|constructor; [reflexivity|constructor]|exact Hth|exact Hel].
+        reflexivity.
+      * apply (prim_lookup fs); [exact HR|not_mname|reflexivity].
+    + apply (prim_lookup fs); [exact HR|not_mname|reflexivity].
+Qed.
+
+(* ---------------------------------------------------------------------------------------------- *)
+(* the simulation                                                                                   *)
+
+Lemma text_of_elems X : Forall (fun x => is_elem x = true) X -> text_of X = [].
+Proof. induction 1 as [|t l H _ IH]; [reflexivity|]. unfold text_of in *. cbn [filter]. rewrite H. exact IH. Qed.
+
+Lemma sim f : forall e out ns e' out',
+  F1l ns -> eval f e out ns = Ok e' out' -> gsafe f e out ns = true ->
+  forall U B rest, Rf (frames e) U B ->
+  exists T U' B',
+    exec (St (print ns ++ rest) U B) T (St rest U' B') /\ Rf (frames e') U' B' /\ length U' = length U /\
+    words_text (rev out') = words_text (rev out) ++ text_of T.
+Proof.
+  induction f as [|f IH]; intros e out ns e' out' HF Hev Hgs U B rest HR; [discriminate Hev|].
+  destruct HF as [|n ns Hn Hns].
+  { rewrite eval_nil in Hev. injection Hev as <- <-. exists [], U, B. repeat split; [apply ex_refl|exact HR|now rewrite app_nil_r]. }
+  destruct (eval_budget f e out n ns _ Hev) as [Hno|(budget & Hs)]; [exfalso; now apply (Hno e' out')|].
+  assert (HR1 : Rf (frames (tick e budget)) U B) by exact HR.
+  cbn [print]. rewrite <- app_assoc.
+  destruct Hn as [w|b Hb|g nm b Hb|nm|t th el Ht Hth Hel].
+  - (* word *)
+    rewrite (eval_word f e out ns budget Hs) in Hev. rewrite (gsafe_word f e out ns budget Hs) in Hgs.
+    destruct (IH _ _ _ _ _ Hns Hev Hgs U B rest HR1) as (T & U' & B' & Hex & HR' & Hlen & Htxt).
+    exists (wprint w ++ T), U', B'. repeat split; [|exact HR'|exact Hlen|].
+    + eapply exec_trans; [apply exec_plain, plain_wprint|exact Hex].
+    + rewrite Htxt, words_text_snoc, text_of_app, (text_of_plain _ (plain_wprint w)). now rewrite app_assoc.
+  - (* group *)
+    rewrite (eval_group f e out ns budget Hs) in Hev. rewrite (gsafe_group f e out ns budget Hs) in Hgs.
+    apply andb_true_iff in Hgs as [Hg1 Hg2].
+    destruct (eval f (with_frames (tick e budget) ([] :: frames (tick e budget))) out b) as [e2 out2| |] eqn:Eb; try discriminate Hev.
+    rewrite print_group. cbn [app]. rewrite <- app_assoc. cbn [app].
+    destruct (IH _ _ _ _ _ Hb Eb Hg1 ([] :: U) B (eg :: print ns ++ rest) (Rf_push _ _ _ HR1))
+      as (T1 & U1 & B1 & Hex1 & HR1' & Hlen1 & Htxt1).
+    destruct U1 as [|u1 U1]; [discriminate Hlen1|].
+    assert (HR2 : Rf (frames (with_frames e2 (tl (frames e2)))) U1 B1) by (apply (Rf_pop _ u1); exact HR1').
+    destruct (IH _ _ _ _ _ Hns Hev Hg2 U1 B1 rest HR2) as (T2 & U2 & B2 & Hex2 & HR2' & Hlen2 & Htxt2).
+    exists ([prim_elem PBgroup] ++ T1 ++ [prim_elem PEgroup] ++ T2), U2, B2. repeat split; [|exact HR2'|cbn in Hlen1; lia|].
+    + eapply exec_trans; [apply (exec_bgroup _ _ _ _ HR1)|].
+      eapply exec_trans; [exact Hex1|].
+      eapply exec_trans; [apply (exec_egroup _ _ _ _ _ HR1')|exact Hex2].
+    + rewrite Htxt2, Htxt1, !text_of_app. cbn [text_of filter prim_elem is_elem]. cbn. now rewrite <- !app_assoc.
+  - (* definition *)
+    rewrite (eval_def f e out ns budget Hs) in Hev. rewrite (gsafe_def f e out ns budget Hs) in Hgs.
+    apply andb_true_iff in Hgs as [Hun Hg2].
+    rewrite print_def0. cbn [app]. rewrite <- app_assoc. cbn [app].
+    pose proof (exec_def _ U B g nm b (print ns ++ rest) HR1 Hb) as Hex0. cbv zeta in Hex0.
+    set (st := (if g then add_global else add_local) (mname nm) (MDef [] (print b)) (St (print ns ++ rest) U B)) in *.
+    assert (Hst : exists U0 B0, st = St (print ns ++ rest) U0 B0 /\ length U0 = length U /\
+                   Rf ((if g then def_global else def_local) nm {| m_n := O; m_default := None; m_body := b |} (frames (tick e budget))) U0 B0).
+    { subst st. destruct g.
+      - exists U, ((mname nm, MDef [] (print b)) :: B). split; [reflexivity|]. split; [reflexivity|].
+        now apply Rf_def_global.
+      - pose proof (Rf_def_local _ U B nm b Hb HR1) as Hl. cbv zeta in Hl.
+        unfold add_local in *. cbn [ups] in *. destruct U as [|u U]; cbn [ups bottom set_ups set_bottom add_global input] in *.
+        + eexists [], _. split; [reflexivity|]. split; [reflexivity|exact Hl].
+        + eexists (_ :: U), B. split; [reflexivity|]. split; [reflexivity|exact Hl]. }
+    destruct Hst as (U0 & B0 & Est & Hlen0 & HR0). rewrite Est in Hex0.
+    destruct (IH _ _ _ _ _ Hns Hev Hg2 U0 B0 rest HR0) as (T & U' & B' & Hex & HR' & Hlen & Htxt).
+    exists ([prim_elem (PDef g)] ++ T), U', B'. repeat split; [|exact HR'|lia|].
+    + eapply exec_trans; [exact Hex0|exact Hex].
+    + rewrite Htxt, text_of_app. replace (text_of [prim_elem (PDef g)]) with (@nil tok) by (destruct g; reflexivity). reflexivity.
+  - (* call *)
+    destruct (lookup_frames nm (frames (tick e budget))) as [m|] eqn:El;
+      [|rewrite (eval_call0 f e out ns budget Hs), El in Hev; discriminate Hev].
+    pose proof (Rf_good _ _ _ _ _ HR1 El) as (Hmn & Hmd & Hmb).
+    rewrite (eval_call0_good f e out ns budget Hs nm m El Hmn Hmd) in Hev.
+    rewrite (gsafe_call0_good f e out ns budget Hs nm m El Hmd) in Hgs.
+    rewrite (subst_F1 50 [] _ Hmb) in Hev, Hgs.
+    destruct (Nat.ltb 4000 (length (m_body m))); [discriminate Hev|].
+    apply andb_true_iff in Hgs as [Hg1 Hg2].
+    destruct (eval f (tick e budget) out (m_body m)) as [e2 out2| |] eqn:Eb; try discriminate Hev.
+    rewrite print_call0. cbn [app].
+    assert (Hlk : chain_get U B (mname nm) = Some (MDef [] (print (m_body m)))).
+    { rewrite (Rf_lookup _ _ _ nm HR1), El. cbn [option_map]. f_equal. apply mean_of_good. now repeat split. }
+    destruct (IH _ _ _ _ _ Hmb Eb Hg1 U B (print ns ++ rest) HR1) as (T1 & U1 & B1 & Hex1 & HR1' & Hlen1 & Htxt1).
+    destruct (IH _ _ _ _ _ Hns Hev Hg2 U1 B1 rest HR1') as (T2 & U2 & B2 & Hex2 & HR2' & Hlen2 & Htxt2).
+    exists (T1 ++ T2), U2, B2. repeat split; [|exact HR2'|lia|].
+    + eapply (exec_trans _ []); [apply (exec_call U B nm _ _ Hlk)|]. eapply exec_trans; [exact Hex1|exact Hex2].
+    + rewrite Htxt2, Htxt1, text_of_app. now rewrite app_assoc.
+  - (* conditional *)
+    rewrite (eval_cond f e out ns budget Hs) in Hev. rewrite (gsafe_cond f e out ns budget Hs) in Hgs. cbv zeta in Hgs.
+    apply andb_true_iff in Hgs as [Hg1 Hg2].
+    set (br := if eval_test (tick e budget) t then th else match el with Some x => x | None => [] end) in *.
+    destruct (eval f (tick e budget) out br) as [e2 out2| |] eqn:Eb; try discriminate Hev.
+    rewrite print_cond. rewrite <- !app_assoc. cbn [app].
+    destruct (exec_cond _ U B t th el (print ns ++ rest) HR1 Ht Hth Hel (tick e budget) eq_refl) as (X & HX & Hex0).
+    assert (Hbr : F1l br) by (subst br; destruct (eval_test (tick e budget) t); [exact Hth|destruct el as [x|]; [now apply Hel|constructor]]).
+    destruct (IH _ _ _ _ _ Hbr Eb Hg1 U B (print ns ++ rest) HR1) as (T1 & U1 & B1 & Hex1 & HR1' & Hlen1 & Htxt1).
+    destruct (IH _ _ _ _ _ Hns Hev Hg2 U1 B1 rest HR1') as (T2 & U2 & B2 & Hex2 & HR2' & Hlen2 & Htxt2).
+    exists ((if eval_test (tick e budget) t then X else []) ++ T1 ++ T2), U2, B2. repeat split; [|exact HR2'|lia|].
+    + eapply (exec_trans _ []); [exact Hex0|]. subst br. destruct (eval_test (tick e budget) t).
+      * rewrite <- app_assoc. eapply exec_trans; [|eapply exec_trans; [exact Hex1|exact Hex2]].
+        clear -HX. induction HX as [|x X Hx _ IHX]; [apply ex_refl|]. cbn [app].
+        eapply (ex_yield O); [now apply step_elem|exact IHX].
+      * cbn [app]. replace (print (else_nodes el)) with (print match el with Some x => x | None => [] end) by (destruct el; reflexivity).
+        eapply exec_trans; [exact Hex1|exact Hex2].
+    + rewrite Htxt2, Htxt1, !text_of_app.
+      replace (text_of (if eval_test (tick e budget) t then X else [])) with (@nil tok)
+        by (destruct (eval_test (tick e budget) t); [now rewrite text_of_elems|reflexivity]).
+      cbn [app]. now rewrite app_assoc.
+Qed.
+
+(* ---------------------------------------------------------------------------------------------- *)
+(* run (print p) = den p  on F1                                                                     *)
+
+Theorem engine_simulates_F1 fuel p e out :
+  in_F1 p = true -> den fuel p = Ok e out -> gdef_safe fuel p = true ->
+  exists fuel' st' T,
+    run fuel' (init (print p)) [] = Done st' T /\
+    text_of T = words_text (rev out) /\
+    ups st' = [] /\
+    (forall id, findm (mname id) (bottom st') = option_map mean_of (alookup id (last (frames e) []))) /\
+    (forall k, (forall id, k <> mname id) -> findm k (bottom st') = findm k base_frame).
+Proof.
+  intros HF Hden Hsafe. apply in_F1_sound in HF. unfold den in Hden. unfold gdef_safe in Hsafe.
+  assert (HR0 : Rf (frames empty_env) [] base_frame).
+  { exists [], []. split; [reflexivity|]. split; [constructor|]. split; [apply frel_init|].
+    intros f id m [<-|[]] Hl. discriminate Hl. }
+  destruct (sim fuel empty_env [] p e out HF Hden Hsafe [] base_frame [] HR0) as (T & U' & B' & Hex & HR & Hlen & Htxt).
+  destruct U' as [|u U']; [|discriminate Hlen]. rewrite app_nil_r in Hex.
+  destruct (exec_run _ _ _ Hex eq_refl) as (fuel' & Hrun).
+  exists fuel', (St [] [] B'), T. split; [exact (Hrun [])|]. split; [cbn in Htxt; now rewrite Htxt|]. split; [reflexivity|].
+  destruct HR as (mfs & mg & E & HF2 & HB & _). inversion HF2; subst. rewrite E. cbn [app last bottom]. exact HB.
+Qed.
